@@ -1,6 +1,7 @@
 // C03 driver: RemoveUnreachableStates, RemoveUselessStates, IsLangEmpty on one automaton per case.
 // case:   trim <T...>
-// output: U <T...> L <T...> E <0|1> I <T...>      (I = the operand re-read after the calls)
+// output: U <T...> L <T...> E <0|1> UM <T...> LM <T...> I <T...>      (UM / LM = the same calls with the optional translation map, one map
+//         per case handed to every call of the case; I = the operand re-read after the calls)
 // history: trimh <T...> { <mode> <nf> f1..fnf }*   after the calls on the first automaton, every stage derives a further object and the three
 //          calls are repeated on it:  mode 0 = selective copy (transitions, not final states) of the current object, then the given final states;
 //          1 = the current object itself after EraseFinalStates + the given final states; 2 / 3 = selective copy of the last result of
@@ -9,11 +10,14 @@
 #include "common.hh"
 using namespace vd;
 typedef VATA::ExplicitTreeAut Aut;
-static void calls(std::ostream& os, Aut& aut, Aut& u, Aut& l) {
+// mu / ml: the optional translation-map arguments; ONE map per case is handed to every call of the case (a caller re-using its map)
+static void calls(std::ostream& os, Aut& aut, Aut& u, Aut& l, VATA::AutBase::StateToStateMap& mu, VATA::AutBase::StateToStateMap& ml) {
 	u = aut.RemoveUnreachableStates();
 	l = aut.RemoveUselessStates();
 	bool e = aut.IsLangEmpty();
-	os << "U " << showTA(obsAut(u)) << " L " << showTA(obsAut(l)) << " E " << (e ? 1 : 0) << " I " << showTA(obsAut(aut));
+	Aut um = aut.RemoveUnreachableStates(&mu);
+	Aut lm = aut.RemoveUselessStates(&ml);
+	os << "U " << showTA(obsAut(u)) << " L " << showTA(obsAut(l)) << " E " << (e ? 1 : 0) << " UM " << showTA(obsAut(um)) << " LM " << showTA(obsAut(lm)) << " I " << showTA(obsAut(aut));
 }
 int main() {
 	std::string line;
@@ -23,7 +27,8 @@ int main() {
 			if (kind != "trim" && kind != "trimh") throw std::runtime_error("driver: unknown case kind");
 			std::ostringstream os;
 			std::unique_ptr<Aut> cur(new Aut(mkAut(a))); Aut u, l;
-			calls(os, *cur, u, l);
+			VATA::AutBase::StateToStateMap mu, ml;
+			calls(os, *cur, u, l, mu, ml);
 			while (kind == "trimh" && !t.done()) {
 				U mode = t.num(), nf = t.num(); std::vector<U> fin; for (U i = 0; i < nf; ++i) fin.push_back(t.num());
 				if (mode == 0) { std::unique_ptr<Aut> n(new Aut(*cur, true, false)); for (U f : fin) n->SetStateFinal(f); cur = std::move(n); }
@@ -33,7 +38,7 @@ int main() {
 				else if (mode == 4) { cur.reset(new Aut(l)); }
 				else throw std::runtime_error("driver: unknown mode");
 				os << " V " << showTA(obsAut(*cur)) << ' ';
-				calls(os, *cur, u, l);
+				calls(os, *cur, u, l, mu, ml);
 			}
 			return os.str();
 		});
